@@ -53,6 +53,10 @@ def _deepcopy(p):
 def gen(spec, lv):
     tier, i = spec[:2]
     post = spec[2] if len(spec) > 2 else None
+    if isinstance(i, tuple):
+        # systematic expression shapes over two registers (generator shared with C01: three leaves, two operators, brackets, signs)
+        from . import c01
+        return {"text": c01.symx_text(i), "pre": [], "order": True, "what": ("ops", "modes", "params")}
     if tier not in _S:
         _S[tier] = scripts(tier)
     modes = []
@@ -68,7 +72,11 @@ def gen(spec, lv):
 def gen_specs(tier, seed):
     base = [(tier, i) for i in range(len(scripts(tier))) if "q0*0" not in " ".join(scripts(tier)[i])]
     multi = [s for s in base if len(set(__import__("re").findall(r"q\d+", " ".join(scripts(tier)[s[1]])))) >= 2]
-    return base + [s + ("deepcopy",) for s in (multi if tier == "thorough" else multi[::2])]
+    from . import c01
+    sx = [x for x in c01.symx_specs() if x[0] == "regref" and x[1] not in (("a", "b", "a"), ("a", "3", "2"))]
+    # (a register that cancels identically is excluded by the property; divisors / factors of 3 become non-dyadic float
+    #  coefficients inside SymPy, which the real-number model would report as a difference of 1e-17)
+    return base + [s + ("deepcopy",) for s in (multi if tier == "thorough" else multi[::2])] + [(tier, x) for x in (sx[(seed % 9)::9] if tier == "quick" else sx)]
 
 
 def main():
